@@ -347,6 +347,8 @@ def check(pid, tier, seed, replay=None):
         if not dok:
             problems.append(("harness-run", "harness run failed:\n" + do[-3000:]))
         elif model_exe:
+            for pr in drive_extra.get("problems", []):
+                problems.append(tuple(pr))
             cases = read_cases(casefile)
             rc, done, mism, specf, mo = run_model(model_exe, casefile)
             if done is None:
